@@ -1,18 +1,26 @@
 PROPERTY = 'C06'
+# ---------------------------------------------------------------- units (one template instantiation per unit)
+def _red(part, *flags):
+  return dict(wrapper='w_reduce.cpp', mode='seq', cxxflags=['-DVP_PART=' + part] + list(flags))
 UNITS = {
   'sort': dict(wrapper='w_sort.cpp', mode='seq', cxxflags=[], selftest=True),
   'sortdrv': dict(wrapper='w_sort.cpp', mode='seq', cxxflags=['-DVP_DRIVER'], cut=['parallel_for']),
-  'red_simple': dict(wrapper='w_reduce.cpp', mode='seq', cxxflags=['-DVP_PART=simple_partitioner']),
-  'red_auto': dict(wrapper='w_reduce.cpp', mode='seq', cxxflags=['-DVP_PART=auto_partitioner']),
-  'red_static': dict(wrapper='w_reduce.cpp', mode='seq', cxxflags=['-DVP_PART=static_partitioner']),
-  'red_affinity': dict(wrapper='w_reduce.cpp', mode='seq', cxxflags=['-DVP_PART=affinity_partitioner', '-DVP_NONCONST_PART']),
-  'det_simple': dict(wrapper='w_reduce.cpp', mode='seq', cxxflags=['-DVP_PART=simple_partitioner', '-DVP_DETERMINISTIC']),
-  'det_static': dict(wrapper='w_reduce.cpp', mode='seq', cxxflags=['-DVP_PART=static_partitioner', '-DVP_DETERMINISTIC']),
+  'red_simple': _red('simple_partitioner'),
+  'red_auto': _red('auto_partitioner'),
+  'red_static': _red('static_partitioner'),
+  'red_affinity': _red('affinity_partitioner', '-DVP_NONCONST_PART'),
+  'det_simple': _red('simple_partitioner', '-DVP_DETERMINISTIC'),
+  'det_static': _red('static_partitioner', '-DVP_DETERMINISTIC'),
+  'scan_simple': dict(wrapper='w_scan.cpp', mode='seq', cxxflags=['-DVP_PART=simple_partitioner']),
+  'scan_auto': dict(wrapper='w_scan.cpp', mode='seq', cxxflags=['-DVP_PART=auto_partitioner']),
 }
-# reduce/scan bag harnesses: arrays up to 256 elements stay field-sensitive (range_vector's 128-byte pool must constant-fold)
+
+# ---------------------------------------------------------------- task orders for the task-bag harnesses (h_reduce.c)
+# bag harnesses: arrays up to 256 elements stay field-sensitive (range_vector's 128-byte pool and the untyped 128/192-byte scan
+# tasks must constant-fold, otherwise no loop bound in the task code is concrete for symex)
 RCBMC = ['--unwind', '13', '--max-field-sensitivity-array-size', '256']
 def sched(nelem, grain, nest, nestk, cancel=(0,), nestmasks=None, drains=None, pols=(0, 1), extra=None, stolen=(0, 255)):
-  """task orders for the reduce/scan task-bag harnesses: see h_reduce.c"""
+  """one scenario = one concrete task order (see the header of h_reduce.c for the meaning of the keys)"""
   leaves = -(-nelem // grain)
   out = []
   for nm in (nestmasks if nestmasks is not None else range(1 << leaves)):
@@ -25,45 +33,127 @@ def sched(nelem, grain, nest, nestk, cancel=(0,), nestmasks=None, drains=None, p
             if extra: sc.update(extra)
             out.append(sc)
   return out
+BAG_BOUNDS = {'tasks': 'atomic, except that other tasks may run (to completion) while a task is inside the user body, NEST levels deep',
+              'task order': 'concrete per query: DRAIN/NESTMASK/NESTPOL/NESTK/STOLEN/CANCEL (enumerated subsets, see scenarios)',
+              'range': 'blocked_range<int>(0,NELEM,GRAIN), NELEM <= 12'}
+def bag(name, unit, what, quick, thorough, defines=None, **kw):
+  d = dict(name=name, unit=unit, harness='h_reduce.c', cbmc=RCBMC, defines=defines or {}, scenarios_quick=quick, scenarios_thorough=thorough,
+           desc=what, bounds=BAG_BOUNDS, timeout=900, mem_gb=6)
+  d.update(kw); return d
+
+# ---------------------------------------------------------------- sort kernels
 def split_h(n, tiers, full=False):
   sc = {'N': n}
   if full: sc['FULLKEYS'] = None
   return dict(name='sort_split_n%d%s' % (n, '_fullkeys' if full else ''), unit='sort', harness='h_split.c', cbmc=['--unwind', str(n + 2)],
-       scenarios=[sc], tiers=tiers, fail_over_unwind=True, timeout=1800 if n > 8 else 600,
-       desc='quick_sort_range splitting constructor (pseudo_median_of_nine + partition loop of split_range) on N elements with symbolic keys',
-       bounds={'N': n, 'keys': 'any signed 32-bit' if full else 'ranks 0..N-1 (= every strict weak order on N elements)'})
-HARNESSES = [split_h(n, ['quick', 'thorough']) for n in (1, 2, 3, 4, 5, 6, 7, 8)] + [split_h(4, ['quick', 'thorough'], True)] + [
+       scenarios=[sc], tiers=tiers, fail_over_unwind=True, timeout=3000 if (n > 8 or (full and n > 4)) else 900, mem_gb=8,
+       desc='quick_sort_range splitting constructor = split_range (pseudo_median_of_nine pivot + partition loop) on an N-element array: '
+            'pivot position inside the range, left = [0,j), right = [j+1,N) (pivot excluded from both, nothing outside touched), whole '
+            'elements permuted, nothing left of the pivot greater, nothing right of it less',
+       bounds={'N': n, 'keys': 'any signed 32-bit' if full else 'ranks 0..N-1 = every strict weak order on N elements (ties included)'})
+
+HARNESSES = (
+  [split_h(n, ['quick', 'thorough']) for n in (1, 2, 3, 4, 5, 6, 7, 8)] + [split_h(4, ['quick', 'thorough'], True)] +
+  [split_h(n, ['thorough']) for n in (9, 10, 11, 12)] + [split_h(5, ['thorough'], True)] + [
   dict(name='sort_median3', unit='sort', harness='h_median.c', scenarios=[{'PART': 1}],
-       desc='median_of_three: returns one of its three positions, holding a median', bounds={'positions': 'any 3 of 4 (may coincide)', 'keys': 'any signed 32-bit'}),
+       desc='median_of_three: returns one of its three positions, and the element there is a median of the three',
+       bounds={'positions': 'any 3 of 4, may coincide', 'keys': 'any signed 32-bit'}),
   dict(name='sort_median9_index', unit='sort', harness='h_median.c', scenarios=[{'PART': 2}],
-       desc='pseudo_median_of_nine index arithmetic for every range size', bounds={'size': '1..2^64-1', 'keys': 'any'}),
-  dict(name='sort_pretest_chunks', unit='sortdrv', harness='h_pretest.c', cbmc=['--unwind', '10'], scenarios=[{'PART': 1, 'N': 7}],
-       desc='quick_sort_pretest_body on two adjacent chunks', bounds={'N': 7}),
-  dict(name='sort_pretest_driver', unit='sortdrv', harness='h_pretest.c', cbmc=['--unwind', '16'], scenarios=[{'PART': 2, 'N': 12}],
-       desc='parallel_quick_sort driver', bounds={'N': 12}),
+       desc='pseudo_median_of_nine index arithmetic: every position read and the position returned lie inside the range',
+       bounds={'size': 'every 64-bit size >= 1 (probe iterator, no array)', 'comparator': 'arbitrary outcome per comparison (over-approximation)'}),
+  dict(name='sort_pretest_chunks', unit='sortdrv', harness='h_pretest.c', cbmc=['--unwind', '14'], scenarios_quick=[{'PART': 1, 'N': 7}],
+       scenarios_thorough=[{'PART': 1, 'N': 7}, {'PART': 1, 'N': 12}],
+       desc='quick_sort_pretest_body on two adjacent chunks [b,m) [m,e) (boundaries, order, keys symbolic): an inverted adjacent pair anywhere '
+            'in [b,e), the pair straddling m included, cancels the context; no access outside [b-1,e)',
+       bounds={'N': '7 | 12', 'keys': 'ranks 0..N-1'}),
+  dict(name='sort_pretest_driver', unit='sortdrv', harness='h_pretest.c', cbmc=['--unwind', '18'], scenarios_quick=[{'PART': 2, 'N': 12}],
+       scenarios_thorough=[{'PART': 2, 'N': 11}, {'PART': 2, 'N': 12}, {'PART': 2, 'N': 15}],
+       desc='parallel_quick_sort (serial 9-pair probe, then parallel probe, then sort) with both parallel_for instantiations cut: an inverted '
+            'adjacent pair at ANY position makes it start the sort on the whole range',
+       bounds={'N': '12 | 11,12,15', 'keys': 'ranks', 'probe chunking': 'two chunks, symbolic boundary and order'}),
   dict(name='sort_pretest_long', unit='sortdrv', harness='h_pretest.c', cbmc=['--unwind', '72'], scenarios=[{'PART': 3, 'N': 70}],
-       desc='long chunk', bounds={'N': 70}),
-  dict(name='reduce_bag_simple', unit='red_simple', harness='h_reduce.c', cbmc=RCBMC,
-       scenarios=sched(3, 1, 1, 1) + sched(3, 1, 1, 1, cancel=(1, 2, 3, 4, 5, 6), nestmasks=(0, 1, 3), drains=(0, 1)),
-       desc='bag', bounds={}),
-  dict(name='reduce_bag_auto', unit='red_auto', harness='h_reduce.c', cbmc=RCBMC,
-       scenarios=sched(4, 1, 1, 1, nestmasks=(0, 1, 5), drains=(0, 3), extra={'MAXCONC': 2}) +
-                 sched(12, 1, 1, 1, nestmasks=(0, 1, 2, 3), drains=(0, 5), extra={'MAXCONC': 1}) +     # range pool + demand-driven offer_work
-                 sched(8, 1, 1, 1, nestmasks=(1, 3), drains=(0, 3), extra={'MAXCONC': 1}),
-       desc='bag', bounds={}),
-  dict(name='reduce_bag_static', unit='red_static', harness='h_reduce.c', cbmc=RCBMC,
-       scenarios=sched(4, 1, 1, 1, nestmasks=(0, 1, 5), drains=(0, 3), extra={'MAXCONC': 2}),
-       desc='bag', bounds={}),
-  dict(name='reduce_bag_affinity', unit='red_affinity', harness='h_reduce.c', cbmc=RCBMC,
-       scenarios=sched(4, 1, 1, 1, nestmasks=(0, 1, 5), drains=(0, 3), extra={'MAXCONC': 2}, stolen=(0, 5, 15)),
-       desc='bag', bounds={}),
-  dict(name='detreduce_bag_simple', unit='det_simple', harness='h_reduce.c', cbmc=RCBMC, defines={'DETERMINISTIC': None},
-       scenarios=sched(4, 1, 1, 1, nestmasks=(0, 1, 3, 5, 10), drains=(0, 3, 5)) + sched(3, 1, 1, 1, cancel=(2, 4), nestmasks=(0, 1), drains=(0, 1)),
-       desc='bag', bounds={}),
-  dict(name='detreduce_bag_static', unit='det_static', harness='h_reduce.c', cbmc=RCBMC, defines={'DETERMINISTIC': None},
-       scenarios=sched(4, 1, 1, 1, nestmasks=(0, 1, 3), drains=(0, 1), extra={'MAXCONC': 3}),
-       desc='bag', bounds={}),
+       desc='one probe chunk longer than the 64-iteration cancellation poll: single inversion at a symbolic position is found unless the '
+            'context is (externally) cancelled; the loop is left early only with a cancelled context',
+       bounds={'N': 70, 'inversion position': 'symbolic 1..69 or none', 'external cancel': 'at poll 0,1,2 or never'}),
+
+  # ------------------------------------------------------------ reduce: real start_reduce/fold_tree/join under the task bag
+  bag('reduce_bag_simple', 'red_simple',
+      'parallel_reduce(blocked_range, Body, simple_partitioner): start_reduce::execute/finalize/offer_work, reduction_tree_node::join/dtor, '
+      'fold_tree. Free-monoid body: result == 0..n-1 in order; lazy split only while the left sibling is unfinished; join only into the body '
+      'it was split from, once, skipped when cancelled; zombie destroyed exactly once; all tasks/nodes freed; wait released once',
+      quick=sched(3, 1, 1, 1, stolen=(None,)) + sched(3, 1, 1, 1, cancel=(2, 3, 4, 5), nestmasks=(0, 1, 3), drains=(0, 1), stolen=(None,)) +
+            sched(4, 1, 2, 2, nestmasks=(1, 3, 7), drains=(0, 5), stolen=(None,)),
+      thorough=sched(3, 1, 1, 1, cancel=(0, 1, 2, 3, 4, 5, 6), stolen=(None,)) + sched(4, 1, 2, 2, stolen=(None,)) +
+               sched(5, 1, 2, 2, nestmasks=(0, 1, 3, 5, 7, 15, 21, 31), drains=(0, 5, 10, 15), stolen=(None,)) + sched(6, 2, 2, 2, stolen=(None,)) +
+               sched(4, 1, 1, 1, cancel=(2, 3, 4, 5, 6, 7, 8), nestmasks=(0, 1, 3, 5), drains=(0, 3), stolen=(None,))),
+  bag('reduce_bag_auto', 'red_auto',
+      'parallel_reduce with auto_partitioner: as reduce_bag_simple plus adaptive splitting, check_being_stolen / m_child_stolen feedback and the '
+      'range_vector pool path of dynamic_grainsize_mode::work_balance (demand-driven offer_work of the front range = the rightmost piece)',
+      quick=sched(4, 1, 1, 1, nestmasks=(0, 1, 5), drains=(0, 3), extra={'MAXCONC': 2}) +
+            sched(12, 1, 1, 1, nestmasks=(0, 1, 2, 3), drains=(0, 5), extra={'MAXCONC': 1}),
+      thorough=sched(4, 1, 2, 2, drains=(0, 5, 7), extra={'MAXCONC': 2}) + sched(6, 1, 2, 1, nestmasks=(0, 1, 3, 5, 9, 21), drains=(0, 7, 21), extra={'MAXCONC': 2}) +
+               sched(12, 1, 2, 2, nestmasks=(0, 1, 2, 3, 5, 7, 15), drains=(0, 5, 3), extra={'MAXCONC': 1}, stolen=(0, 255, 0x55, 0xaa)) +
+               sched(8, 1, 1, 1, nestmasks=(1, 3), drains=(0, 3), extra={'MAXCONC': 1}) +
+               sched(12, 1, 1, 1, cancel=(3, 6, 9), nestmasks=(1, 3), drains=(0,), extra={'MAXCONC': 1}, stolen=(255,))),
+  bag('reduce_bag_static', 'red_static', 'parallel_reduce with static_partitioner (proportional splits): oracles of reduce_bag_simple',
+      quick=sched(4, 1, 1, 1, nestmasks=(0, 1, 5), drains=(0, 3), extra={'MAXCONC': 2}, stolen=(255,)),
+      thorough=sched(6, 1, 2, 2, nestmasks=(0, 1, 3, 5, 7), drains=(0, 3, 5), extra={'MAXCONC': 3}) + sched(4, 1, 1, 1, drains=(0, 3, 5), extra={'MAXCONC': 2}, stolen=(255,)) +
+               sched(7, 1, 1, 1, nestmasks=(0, 1, 3), drains=(0, 7), extra={'MAXCONC': 4}, stolen=(255,))),
+  bag('reduce_bag_affinity', 'red_affinity', 'parallel_reduce with affinity_partitioner (affinity array, range pool): oracles of reduce_bag_simple',
+      quick=sched(4, 1, 1, 1, nestmasks=(0, 1, 5), drains=(0, 3), extra={'MAXCONC': 2}, stolen=(0, 15)),
+      thorough=sched(4, 1, 2, 2, drains=(0, 5), extra={'MAXCONC': 2}, stolen=(0, 15)) + sched(8, 1, 1, 1, nestmasks=(0, 1, 3, 5), drains=(0, 3), extra={'MAXCONC': 1}, stolen=(0, 255))),
+  bag('detreduce_bag_simple', 'det_simple',
+      'parallel_deterministic_reduce(simple_partitioner): two runs in one query (reference order, then the order of the scenario): the '
+      'non-associative fingerprint of join tree + leaf ranges, the number of bodies and of tasks are equal; plus all reduce_bag oracles',
+      defines={'DETERMINISTIC': None},
+      quick=sched(4, 1, 1, 1, nestmasks=(0, 1, 3, 5, 10), drains=(0, 5)) + sched(3, 1, 1, 1, cancel=(2, 4), nestmasks=(0, 1), drains=(0, 1), stolen=(255,)),
+      thorough=sched(4, 1, 2, 2, drains=(0, 3, 5)) + sched(5, 1, 2, 1, nestmasks=(0, 1, 5, 21, 31), drains=(0, 5, 10, 15)) + sched(6, 2, 2, 2) +
+               sched(3, 1, 1, 1, cancel=(1, 2, 3, 4, 5, 6), nestmasks=(0, 1, 3, 7), drains=(0, 1, 3), stolen=(255,))),
+  bag('detreduce_bag_static', 'det_static', 'parallel_deterministic_reduce(static_partitioner): as detreduce_bag_simple',
+      defines={'DETERMINISTIC': None},
+      quick=sched(4, 1, 1, 1, nestmasks=(0, 1, 3), drains=(0, 1), extra={'MAXCONC': 3}, stolen=(255,)),
+      thorough=sched(6, 1, 2, 2, nestmasks=(0, 1, 3, 5, 7), drains=(0, 3, 5), extra={'MAXCONC': 3}) + sched(5, 1, 1, 1, nestmasks=(0, 1, 3), drains=(0, 3), extra={'MAXCONC': 2})),
+
+  # ------------------------------------------------------------ scan: real start_scan/finish_scan/sum_node/final_sum under the task bag
+  bag('scan_bag_simple', 'scan_simple',
+      'parallel_scan(blocked_range, Body, simple_partitioner), both passes: every pass (pre or final) starts from a running sum that is the '
+      'in-order fold of the operands immediately left of its subrange; the final pass starts from the complete prefix 0..b-1 and runs exactly '
+      'once per element; the user body ends with the full reduction; bodies destroyed once, everything freed, each wait released once',
+      defines={'SCAN': None}, native_cflags=['-fno-sanitize=null'],
+      quick=sched(3, 1, 1, 1, nestmasks=(0, 1), drains=(0, 1)) + sched(4, 1, 1, 1, nestmasks=(0, 3), drains=(0, 5), stolen=(0x55,)),
+      thorough=sched(3, 1, 2, 2, drains=(0, 3), stolen=(0, 255, 0x55)) + sched(4, 1, 2, 2, nestmasks=(0, 1, 3, 5, 7, 15), drains=(0, 5), stolen=(0, 255, 0x55)) +
+               sched(5, 1, 1, 1, nestmasks=(0, 1, 3, 5, 21), drains=(0, 5, 10), stolen=(0, 0x33)) + sched(6, 2, 2, 2, drains=(0, 3), stolen=(0, 255))),
+  bag('scan_bag_auto', 'scan_auto', 'parallel_scan with auto_partitioner (partition_type::should_execute_range): as scan_bag_simple',
+      defines={'SCAN': None}, native_cflags=['-fno-sanitize=null'],
+      quick=sched(4, 1, 1, 1, nestmasks=(0, 1), drains=(0, 1), extra={'MAXCONC': 1}),
+      thorough=sched(4, 1, 2, 2, nestmasks=(0, 1, 3, 5, 15), drains=(0, 5), extra={'MAXCONC': 1}, stolen=(0, 255, 0x55)) + sched(6, 1, 1, 1, nestmasks=(0, 1, 3, 5), drains=(0, 5), extra={'MAXCONC': 1}, stolen=(0, 255, 0x55)) +
+               sched(4, 1, 1, 1, nestmasks=(0, 1, 3), drains=(0, 3), extra={'MAXCONC': 2}, stolen=(0, 255))),
+  # NOT part of the check (tier 'finding'): parallel_scan under cancellation does not free its sum_node / final_sum objects (real, see
+  # NOTES.md and repro_scan_cancel_leak.cpp); clean-up under cancellation is outside C06's statement
+  bag('scan_bag_cancel', 'scan_simple', 'parallel_scan cancelled at the k-th observation point: clean-up (known to fail, see NOTES.md)',
+      defines={'SCAN': None}, native_cflags=['-fno-sanitize=null'], tiers=['finding'],
+      quick=[], thorough=[], scenarios=sched(3, 1, 1, 1, nestmasks=(0, 1), drains=(0,), cancel=(2, 4, 6, 8), stolen=(255,))),
+])
+
+OUTSIDE = [
+  'whole parallel_sort on arrays >= 500 elements (cut-offs grainsize/min_parallel_size): only the kernels are run, composition (recursion on the two subranges, std::sort on leaves) is a paper argument',
+  'std::sort on leaf ranges (libstdc++)',
+  'true overlap of two task bodies / of fold_tree with a running sibling (memory ordering of m_ref_count, has_right_zombie): tasks are atomic except for nested runs inside the user body',
+  'task orders not in the enumerated scenario lists; ranges > 12 elements; blocked_range2d/3d; lambda forms of parallel_reduce/scan (thin adaptors over the Body form)',
+  'floating-point bit-identity of parallel_deterministic_reduce on real data (only: join tree and leaf ranges do not depend on the task order)',
+  'exceptions thrown by bodies; clean-up of parallel_scan under cancellation (known leak, not part of the statement)',
+  'affinity_partitioner replay across several calls (affinity array reuse)',
 ]
-OUTSIDE = []
-STUBS = []
-ASSUMPTIONS = []
+STUBS = [
+  'r1::allocate/deallocate: malloc/free (typed objects), double free / use after free checked by cbmc; r1::spawn: append to the bag; r1::execute_and_wait: run the root task, then drain the bag in the order of the scenario; bypass tasks (returned by execute) are run next by the same thread',
+  'r1::execution_slot(ed): 0 or 1 per taken task (STOLEN mask or symbolic); original_slot 0; affinity_slot no_slot',
+  'r1::is_group_execution_cancelled / dispatch: false until the CANCEL-th observation point, true afterwards; a task of a cancelled group gets cancel() instead of execute()',
+  'r1::max_concurrency: MAXCONC; r1::notify_waiters: counted; r1::initialize(context): the fields the headers read (state=created, not cancelled); r1::cache_aligned_allocate: the affinity array',
+  'sort: parallel_for<blocked_range,pretest_body> cut: runs the real body on two chunks with symbolic boundary/order; parallel_for<quick_sort_range,quick_sort_body> cut: records its argument',
+  'memset: word-wise model in the bag harness (cbmc builtin rewrites the whole object and defeats constant propagation)',
+]
+ASSUMPTIONS = [
+  'sort comparator is a strict weak order given by integer keys (ranks 0..N-1 cover every strict weak order on N elements; FULLKEYS scenarios use arbitrary 32-bit keys)',
+  'Body::operator(), join, reverse_join, assign do not throw; Range is blocked_range<int>',
+  'stolen-ness of a task is independent of where it was spawned (over-approximation: any combination from the STOLEN masks)',
+]
